@@ -10,6 +10,7 @@ package main
 import (
 	"bufio"
 	"bytes"
+	"encoding/hex"
 	"encoding/json"
 	"fmt"
 	"io"
@@ -33,22 +34,24 @@ type violation struct {
 }
 
 type batchResult struct {
-	Counters map[string]int  `json:"counters"`
-	Viol     []violation     `json:"violations"`
-	Distinct []string        `json:"distinct"`
-	Samples  []string        `json:"samples"`
-	Infra    []string        `json:"infra"`
-	Done     int             `json:"done"`
+	Counters map[string]int    `json:"counters"`
+	Viol     []violation       `json:"violations"`
+	Distinct []string          `json:"distinct"`
+	Samples  []string          `json:"samples"`
+	Infra    []string          `json:"infra"`
+	Done     int               `json:"done"`
+	Records  []json.RawMessage `json:"records,omitempty"`
 }
 
 type worker struct {
-	props    map[string]bool
-	fam      string
-	res      *batchResult
+	props        map[string]bool
+	fam          string
+	res          *batchResult
 	distinctSeen map[string]bool
-	sampleEvery int
-	n        int
-	opts     map[string]string
+	sampleEvery  int
+	n            int
+	opts         map[string]string
+	prevLine     []byte // the case processed just before this one in the same process (call histories matter)
 }
 
 func (w *worker) count(k string, n int) { w.res.Counters[k] += n }
@@ -75,7 +78,13 @@ func (w *worker) viol(prop, kind, text, doc, detail, sig string, raw []byte) {
 	if n >= 2 {
 		return
 	}
-	w.res.Viol = append(w.res.Viol, violation{Prop: prop, Kind: kind, Text: text, Doc: doc, Detail: detail, Sig: sig, Case: string(raw)})
+	cs := string(raw)
+	if w.fam == "recparse" && w.prevLine != nil {
+		// outcome may depend on the call made just before in this process: keep both for the replay
+		cs = string(w.prevLine) + "\n" + cs
+		detail += " | previous Parse call in this process: " + caseText(w.prevLine)
+	}
+	w.res.Viol = append(w.res.Viol, violation{Prop: prop, Kind: kind, Text: text, Doc: doc, Detail: detail, Sig: sig, Case: cs})
 }
 
 func decodeLine(line []byte) ([]byte, bool) {
@@ -113,6 +122,8 @@ func (w *worker) process(line []byte) {
 		}
 		w.res.Samples = append(w.res.Samples, s)
 	}
+	w.fam = head.Fam
+	defer func() { w.prevLine = append([]byte(nil), inner...) }()
 	switch head.Fam {
 	case "sel":
 		var c selCase
@@ -136,6 +147,7 @@ var families = map[string]func(w *worker, inner []byte){}
 func workerMain(props map[string]bool, opts map[string]string) {
 	in := bufio.NewReaderSize(os.Stdin, 1<<20)
 	out := bufio.NewWriter(os.Stdout)
+	var prev []byte
 	for {
 		hdr, err := in.ReadString('\n')
 		if err != nil {
@@ -143,7 +155,7 @@ func workerMain(props map[string]bool, opts map[string]string) {
 		}
 		var n int
 		fmt.Sscanf(hdr, "B %d", &n)
-		w := &worker{props: props, res: &batchResult{Counters: map[string]int{}}, distinctSeen: map[string]bool{}, sampleEvery: 997, opts: opts}
+		w := &worker{props: props, res: &batchResult{Counters: map[string]int{}}, distinctSeen: map[string]bool{}, sampleEvery: 997, opts: opts, prevLine: prev}
 		for i := 0; i < n; i++ {
 			line, err := in.ReadBytes('\n')
 			if err != nil {
@@ -159,6 +171,7 @@ func workerMain(props map[string]bool, opts map[string]string) {
 				w.res.Viol[i].Prop = alias
 			}
 		}
+		prev = w.prevLine
 		b, _ := json.Marshal(w.res)
 		out.Write(b)
 		out.WriteByte('\n')
@@ -229,17 +242,26 @@ func (p *proc) runBatch(lines [][]byte, timeout time.Duration) (*batchResult, er
 }
 
 type summary struct {
-	Counters  map[string]int `json:"counters"`
-	Viol      []violation    `json:"violations"`
-	Distinct  int            `json:"distinct_nontrivial"`
-	Samples   []string       `json:"samples"`
-	Infra     []string       `json:"infra"`
-	Cases     int            `json:"cases"`
-	Crashes   int            `json:"crashes"`
+	Counters map[string]int `json:"counters"`
+	Viol     []violation    `json:"violations"`
+	Distinct int            `json:"distinct_nontrivial"`
+	Samples  []string       `json:"samples"`
+	Infra    []string       `json:"infra"`
+	Cases    int            `json:"cases"`
+	Crashes  int            `json:"crashes"`
 }
 
-func dispatch(input io.Reader, logPath string, workerArgs []string, nworkers, batchSize int, crashProp string, maxCases int) *summary {
+func dispatch(input io.Reader, logPath string, workerArgs []string, nworkers, batchSize int, crashProp string, maxCases int, recPath string) *summary {
 	sum := &summary{Counters: map[string]int{}}
+	var recw *bufio.Writer
+	if recPath != "" {
+		rf, err := os.Create(recPath)
+		if err == nil {
+			defer rf.Close()
+			recw = bufio.NewWriterSize(rf, 1<<20)
+			defer recw.Flush()
+		}
+	}
 	distinct := map[string]bool{}
 	var mu sync.Mutex
 	merge := func(r *batchResult) {
@@ -267,6 +289,12 @@ func dispatch(input io.Reader, logPath string, workerArgs []string, nworkers, ba
 		}
 		sum.Infra = append(sum.Infra, r.Infra...)
 		sum.Cases += r.Done
+		if recw != nil {
+			for _, rec := range r.Records {
+				recw.Write(rec)
+				recw.WriteByte('\n')
+			}
+		}
 	}
 	batches := make(chan [][]byte, nworkers*2)
 	var wg sync.WaitGroup
@@ -286,7 +314,7 @@ func dispatch(input io.Reader, logPath string, workerArgs []string, nworkers, ba
 						continue
 					}
 				}
-				r, err := p.runBatch(b, 120*time.Second)
+				r, err := p.runBatch(b, 90*time.Second)
 				if err == nil {
 					merge(r)
 					continue
@@ -372,10 +400,15 @@ func caseText(inner []byte) string {
 	var c struct {
 		Texts []spelling `json:"texts"`
 		S     []int      `json:"s"`
+		Hex   string     `json:"hex"`
 	}
 	json.Unmarshal(inner, &c)
 	if len(c.Texts) > 0 {
 		return cps(c.Texts[0].Text)
+	}
+	if c.Hex != "" {
+		b, _ := hex.DecodeString(c.Hex)
+		return string(b)
 	}
 	return cps(c.S)
 }
